@@ -42,6 +42,11 @@ impl RecoveryState {
         self.sync_stack.last().copied()
     }
 
+    /// The number of currently-open nodes
+    pub fn depth(&self) -> usize {
+        self.sync_stack.len()
+    }
+
     pub fn push(&mut self, node: NodeKind) {
         self.sync_stack.push(node);
     }
